@@ -238,6 +238,8 @@ Lemma gen_tune_fact : forall u,
 Proof. intros. repeat split. Qed.
 Lemma gen_dflt_fact : gen_dflt_dss = 1 /\ gen_dflt_perc = 20.
 Proof. split; reflexivity. Qed.
+Lemma gen_holdout_tail_fact : holdout_tail_ok = true.
+Proof. reflexivity. Qed.
 Lemma gen_shape_fact : shape_eqb gen_shake_impl_shape modelled_shape = true.
 Proof. reflexivity. Qed.
 
@@ -261,6 +263,10 @@ Proof. intros. unfold idents. cbn [training validation]. apply Permutation_map. 
 
 
 (* the interpreter of ValidDefs.v on the facts above: the functions as the source writes them *)
+Lemma move_to_validation_unfold : forall st,
+  move_to_validation P st = mkSt [] (validation st ++ training st) (clr_t st) (clr_v st).
+Proof. intros. reflexivity. Qed.
+
 Lemma holdout_skip_unfold : forall a p,
   holdout_skip a p = Z.max (((a * ((100 - p) mod two32)) mod two64) / 100) 1.
 Proof. intros. unfold holdout_skip. apply gen_skip_fact. Qed.
@@ -283,7 +289,7 @@ Lemma holdout_init_unfold : forall c run st ds,
         end.
 Proof.
   intros c run st ds. unfold holdout_init. rewrite gen_early_fact.
-  destruct (0 <? run); [reflexivity|]. cbv zeta.
+  destruct (0 <? run); [reflexivity|]. rewrite gen_holdout_tail_fact. cbn [negb]. cbv zeta.
   set (a := zlen P (training st)). set (sk := holdout_skip a (perc c)).
   destruct (gen_fy_fact a sk) as [F1 F2]. rewrite F1, F2.
   assert (Ha : 0 <= a) by apply zlen_nonneg.
@@ -307,7 +313,7 @@ Lemma shake_impl_unfold : forall c st ds,
                       (clr_t st) (clr_v st), ds')
   end.
 Proof.
-  intros. unfold shake_impl. rewrite gen_shape_fact. cbn [negb move_to_validation training validation clr_t clr_v app].
+  intros. unfold shake_impl. rewrite gen_shape_fact, move_to_validation_unfold. cbn [negb training validation clr_t clr_v app].
   reflexivity.
 Qed.
 
@@ -633,7 +639,7 @@ Proof.
       rewrite (Permutation_app_comm sel). rewrite (Permutation_map (ident P) H2).
       rewrite map_ident_inc. apply Permutation_map. apply Permutation_app_comm.
     + destruct (Hf eq_refl) as [-> _]. reflexivity.
-  - rewrite dss_close_unfold in H. inversion H; subst. cbn [clear_evaluators move_to_validation training validation app].
+  - rewrite dss_close_unfold, move_to_validation_unfold in H. inversion H; subst. cbn [clear_evaluators training validation app].
     apply Permutation_map. apply Permutation_app_comm.
   - inversion H; subst. cbn [eval_step training validation]. rewrite !map_app, !map_ident_bump. reflexivity.
 Qed.
